@@ -224,6 +224,118 @@ func c07Replay(b []byte, how string) map[string]any {
 		"call": "common.UnmarshalVersionedSnapshot(bytes); compare with VersionedMarshal() of the result"}
 }
 
+// c07Finalized evaluates the hash oracle on a finalized-looking object: Hash
+// field set to its own PayloadHash and a signature attached. The hash must not
+// depend on the Hash field, the signature, the topology wrapper or a
+// marshal/decode round trip, and after every in-place change of one payload
+// field it must equal the hash of a fresh unsigned struct with the same fields
+// (and differ from the old one).
+func c07Finalized(c *verifmc.Check, f *c07Fields, name string, fresh crypto.Hash, checks, muts *int64) {
+	build := func() *Snapshot {
+		return &Snapshot{Version: f.ver, NodeId: f.node, RoundNumber: f.round, References: f.refs,
+			Transactions: append([]crypto.Hash{}, f.txs...), Timestamp: f.ts}
+	}
+	hashOf := func(s *Snapshot) (h crypto.Hash, ok bool) {
+		ok = verifmc.Catch(func() { h = s.PayloadHash() }) == nil
+		return
+	}
+	same := func(what string, s *Snapshot) {
+		*checks++
+		c.Eval(1)
+		if h, ok := hashOf(s); !ok || h != fresh {
+			c.Outcome("finalized:VIOLATING")
+			c.Violation("hash:depends-on-signature-hash-field-or-topology",
+				fmt.Sprintf("%s: finalized-looking object (%s) hashes to %s (ok=%v), a fresh unsigned struct with the same payload hashes to %s", name, what, h, ok, fresh),
+				map[string]any{"case": name, "variant": what})
+			return
+		}
+		c.Outcome("finalized:hash-stable")
+	}
+	fin := build()
+	fin.Hash = fresh
+	fin.Signature = &crypto.CosiSignature{Mask: c07SigMask, Signature: c07SigBody()}
+	same("Hash=PayloadHash, signature attached", fin)
+	fin.Signature = &crypto.CosiSignature{Mask: c07SigMask ^ 0xff00, Signature: c07SigBody()}
+	same("other signature mask", fin)
+	fin.Hash = c07Hash(0x5e)
+	same("Hash field holds an unrelated value", fin)
+	fin.Hash = fresh
+	topo := &SnapshotWithTopologicalOrder{Snapshot: fin, TopologicalOrder: c07TopoVals[f.topo]}
+	same("through the topology wrapper", topo.Snapshot)
+	var enc []byte
+	if verifmc.Catch(func() { enc = topo.VersionedMarshal() }) == nil {
+		if dec, err := UnmarshalVersionedSnapshot(enc); err == nil {
+			same("own marshalled and decoded bytes", dec.Snapshot)
+			dec.Hash = fresh
+			same("decoded bytes with Hash field set", dec.Snapshot)
+		}
+	}
+
+	other := c07Hash(0x7d)
+	type mutation struct {
+		field string
+		apply func(s *Snapshot)
+	}
+	mutations := []mutation{
+		{"node", func(s *Snapshot) { s.NodeId[31] ^= 0x01 }},
+		{"round+1", func(s *Snapshot) { s.RoundNumber++ }},
+		{"round^high", func(s *Snapshot) { s.RoundNumber ^= 1 << 63 }},
+		{"timestamp+1", func(s *Snapshot) { s.Timestamp++ }},
+		{"timestamp^high", func(s *Snapshot) { s.Timestamp ^= 1 << 63 }},
+		{"references.self", func(s *Snapshot) {
+			if s.References != nil {
+				s.References = &RoundLink{Self: other, External: s.References.External}
+			} else {
+				s.References = &RoundLink{Self: other, External: other}
+			}
+		}},
+		{"references.external", func(s *Snapshot) {
+			if s.References != nil {
+				s.References = &RoundLink{Self: s.References.Self, External: other}
+			} else {
+				s.References = &RoundLink{External: other}
+			}
+		}},
+		{"references->nil", func(s *Snapshot) { s.References = nil }},
+		{"transactions[0]", func(s *Snapshot) { s.Transactions[0][0] ^= 0x80 }},
+		{"transactions[last]", func(s *Snapshot) { s.Transactions[len(s.Transactions)-1][31] ^= 0x01 }},
+		{"transactions+1", func(s *Snapshot) { s.Transactions = append(s.Transactions, other) }},
+		{"transactions-1", func(s *Snapshot) { s.Transactions = s.Transactions[:len(s.Transactions)-1] }},
+	}
+	for _, m := range mutations {
+		ref := build()
+		m.apply(ref)
+		want, ok := hashOf(ref) // fresh, unsigned, Hash field zero
+		if !ok {
+			continue // the changed structure is one the encoder refuses (e.g. round 0 with 2 transactions)
+		}
+		obj := build()
+		obj.Hash = fresh
+		obj.Signature = &crypto.CosiSignature{Mask: c07SigMask, Signature: c07SigBody()}
+		m.apply(obj)
+		got, gok := hashOf(obj)
+		*muts++
+		c.Eval(1)
+		c.Distinct("finalized|" + name + "|" + m.field)
+		switch {
+		case want == fresh:
+			if f.refs == nil && m.field == "references->nil" {
+				continue // no change
+			}
+			c.Outcome("finalized:VIOLATING")
+			c.Violation("hash:payload-field-ignored", fmt.Sprintf("%s: changing %s does not change the PayloadHash of a fresh unsigned struct", name, m.field),
+				map[string]any{"case": name, "field": m.field})
+		case !gok || got != want:
+			c.Outcome("finalized:VIOLATING")
+			c.Violation("hash:does-not-follow-payload",
+				fmt.Sprintf("%s: after Hash = PayloadHash(), attaching a signature and changing %s in place, PayloadHash() = %s (ok=%v); stale value %s, a fresh struct with the same fields hashes to %s", name, m.field, got, gok, fresh, want),
+				map[string]any{"case": name, "field": m.field, "recipe": "s.Hash = s.PayloadHash(); s.Signature = sig; mutate field; s.PayloadHash() must equal the hash of a fresh struct"})
+		default:
+			c.Outcome("finalized:hash-follows-payload")
+		}
+	}
+}
+
 func TestMC_C07(t *testing.T) {
 	c := verifmc.Start(t, "C07", "exploration")
 	defer c.Finish()
@@ -269,6 +381,7 @@ func TestMC_C07(t *testing.T) {
 	tupleHash := map[string]crypto.Hash{}
 	var accepted, rejected, structInvalidRejected, realEncoded, realRefused int64
 	byteOutcomes := map[string]int64{}
+	var finalizedChecks, finalizedMutations int64
 
 	report := func(key, desc string, b []byte, how string) {
 		c.Violation(key, desc, c07Replay(b, how))
@@ -368,12 +481,16 @@ func TestMC_C07(t *testing.T) {
 						map[string]any{"payload": tuple, "case": name})
 				}
 				tupleHash[tuple] = ph
+				c07Finalized(c, &f, name, ph, &finalizedChecks, &finalizedMutations)
 			} else {
 				c.Outcome("hash:refused")
 			}
 		}
 		return true
 	})
+	c.Set("finalized_object_hash_checks", finalizedChecks)
+	c.Set("finalized_object_field_mutations", finalizedMutations)
+	c.Require(finalizedChecks > 10000 && finalizedMutations > 10000, "finalized-object hash oracle not exercised: %d checks, %d mutations", finalizedChecks, finalizedMutations)
 	c.Set("structure_cases", verifmc.ProductSize(radices))
 	c.Set("structure_accepted", accepted)
 	c.Set("structure_rejected", rejected)
